@@ -10,8 +10,14 @@ sys.path.insert(0, os.path.join(HERE, "harness"))
 ALL = [f"C{i:02d}" for i in range(1, 21)]
 NA_REASONS = json.load(open(os.path.join(HERE, "not_applicable.json"))) if os.path.exists(os.path.join(HERE, "not_applicable.json")) else {}
 
+# properties whose checks have been accepted (pass on the unchanged tree, several seeds)
+READY = [l.strip() for l in open(os.path.join(HERE, "registered.txt")) if l.strip() and not l.startswith("#")]
+
 checks, na = [], []
 for pid in ALL:
+    if pid not in READY:
+        na.append({"property_id": pid, "reason": NA_REASONS.get(pid, "check under construction in this round (design in DESIGN.md §6); nothing is claimed for it yet")})
+        continue
     path = os.path.join(HERE, "harness", "props", pid.lower() + ".py")
     if not os.path.exists(path):
         na.append({"property_id": pid, "reason": NA_REASONS.get(pid, "check not built yet in this round (design in DESIGN.md §6); nothing is claimed for it")})
